@@ -1,5 +1,4 @@
 import BtcwVerif.Lemmas.RefObs
-import BtcwVerif.Props.C02
 /-!
 # Refinement, event *disconnected*, store side: what the loops of `rollback` write (lookup level)
 Only the buckets the refinement relation reads are tracked (the unspent index and the counter follow from `WF2`).
@@ -320,6 +319,33 @@ theorem outSpec_fold (rec : Tx) (blk : Block) (tu : Bool) (f : RB → Nat × Int
               · exact e1 ⟨p, hp', e, by rw [hcr p hp']; exact hs⟩
             rw [if_neg h3, if_neg h4]
 
+/-- the coinbase branch remembers every output (same statement as `C02_rollback_remembers_every_coinbase_output`,
+repeated here so that Props/C02.lean can import the refinement) -/
+theorem rbCoinbaseOut_cb_fold (rec : Tx) (blk : Block) :
+    ∀ (outs : List Int) (n : Nat) (r : RB),
+      ((withIdx outs n).foldl (rbCoinbaseOut rec blk) r).cb =
+        r.cb ++ (List.range outs.length).map (fun i => (⟨rec.hash, n + i⟩ : OutPoint)) := by
+  intro outs
+  induction outs with
+  | nil => intro n r; simp [withIdx]
+  | cons v t ih =>
+    intro n r
+    have hstep : (rbCoinbaseOut rec blk r (n, v)).cb = r.cb ++ [⟨rec.hash, n⟩] := by
+      unfold rbCoinbaseOut
+      dsimp only
+      split
+      · rfl
+      · split <;> rfl
+    simp only [withIdx, List.foldl_cons]
+    rw [ih (n + 1), hstep, List.length_cons, List.range_succ_eq_map, List.map_cons, List.map_map]
+    simp only [List.append_assoc, List.singleton_append, Nat.add_zero]
+    congr 2
+    apply List.map_congr_left
+    intro i _
+    simp only [Function.comp]
+    congr 1
+    omega
+
 /-! ### one transaction of a detached block -/
 
 def rbTxPure (blk : Block) (r : RB) (rec : Tx) : RB :=
@@ -433,7 +459,7 @@ theorem txSpec_pure (rec : Tx) (blk : Block) (r : RB) : TxSpec rec blk r (rbTxPu
     rw [rbTxPure_cb hcb, hr0']
     have hsp := outSpec_fold rec blk false (rbCoinbaseOut rec blk)
       (fun r p => (rbCoinbaseOut_eq rec blk r p.1 p.2).1) (withIdx rec.outs) r0 (withIdx_fst_nodup _ _)
-    have hcbl := TxStore.C02.C02_rollback_remembers_every_coinbase_output rec blk rec.outs 0 r0
+    have hcbl := rbCoinbaseOut_cb_fold rec blk rec.outs 0 r0
     generalize (withIdx rec.outs).foldl (rbCoinbaseOut rec blk) r0 = r' at hsp hcbl
     refine ⟨by rw [hsp.blocks, ← hr0], by rw [hsp.locked, ← hr0], by intro k; rw [hsp.txrecs]; exact htx k, ?_, ?_, ?_, ?_,
       ?_, ?_, ?_, ?_, ?_, ?_, ?_⟩
